@@ -154,7 +154,7 @@ impl Check for C06 {
 
     fn run(&self, ctx: &mut Ctx) -> Result<(), MachineryError> {
         let g = grid(ctx.tier);
-        ctx.rule = "complete product over the boundary grid G: every ordered pair (a,b) x {+ - * / %} x 6 forms (expression, op-assign on variable / list element / property (two spellings), x = x op b), 6 comparisons, the identity (a/b)*b + a%b == a, every `_` placement (<=2) of every non-negative grid literal with and without `-`, too-large literals, ranges a .. a+d for d in [-2,6], every descending pair as a range, ranges iterated directly / evaluated again after the first result changed / spread, op-assignment on a variable shadowing another one, three-operand chains, 9 exact / inexact operations in 19 expression positions (conditions of if / else-if / while, iterables, indices, bounds, arguments, returns, literals, targets); non-trivial = every case (all are distinct tuples); distinct = distinct (reference outcome, diagnostic shape)".to_string();
+        ctx.rule = "complete product over the boundary grid G: every ordered pair (a,b) x {+ - * / %} x 6 forms (expression, op-assign on variable / list element / property (two spellings), x = x op b), 6 comparisons, the identity (a/b)*b + a%b == a, every `_` placement (<=2) of every non-negative grid literal with and without `-`, every non-negative grid literal padded with leading zeros to 8 widths up to 64 digits, too-large literals, ranges a .. a+d for d in [-2,6], every descending pair as a range, ranges iterated directly / evaluated again after the first result changed / spread, op-assignment on a variable shadowing another one, three-operand chains, 9 exact / inexact operations in 19 expression positions (conditions of if / else-if / while, iterables, indices, bounds, arguments, returns, literals, targets); non-trivial = every case (all are distinct tuples); distinct = distinct (reference outcome, diagnostic shape)".to_string();
         let mut total_pairs = 0u64;
         let mut overflow_cells = 0u64;
         for chunk in g.chunks(8) {
@@ -219,6 +219,20 @@ impl Check for C06 {
                 cases.push(Case::new(format!("print({})\n", s), T_LIT, format!("{} +", n)));
                 cases.push(Case::new(format!("print(-{})\n", s), T_LIT, format!("{} -", n)));
                 cases.push(Case::new(format!("print(0 - {})\n", s), T_LIT, format!("{} -", n)));
+            }
+        }
+        // leading zeros do not change the value, whatever the number of digits
+        for &n in g.iter().filter(|n| **n >= 0) {
+            let digits = format!("{}", n);
+            for width in [digits.len() + 1, 18, 19, 20, 21, 25, 40, 64] {
+                if width <= digits.len() {
+                    continue;
+                }
+                let s = format!("{}{}", "0".repeat(width - digits.len()), digits);
+                cases.push(Case::new(format!("print({})\n", s), T_LIT, format!("{} +", n)));
+                cases.push(Case::new(format!("print(-{})\n", s), T_LIT, format!("{} -", n)));
+                let s2 = format!("{}_{}", "0".repeat(width - digits.len()), digits);
+                cases.push(Case::new(format!("print(1 - {})\n", s2), T_REF, format!("zero-padded literal {} with a separator", s2)));
             }
         }
         for big in ["9223372036854775808", "9223372036854775809", "9_223_372_036_854_775_808", "18446744073709551616", "99999999999999999999999"] {
